@@ -119,6 +119,19 @@ fn c10_reject_planar_focal(fovy: R, aspect: R, h: R, n: R, f: R) {
     let _m = planar(Rad(fovy), aspect, h, n, f);
     vmust_not_reach("focal point between the planes accepted");
 }
+// the same for a negative field of view (planar allows -pi < fovy < 0: the focal point is then in front of the origin)
+fn c10_reject_planar_focal_neg(fovy: R, aspect: R, h: R, n: R, f: R) {
+    vmay_panic();
+    vassume(fovy < R(0.0)); vassume(fovy > -R(std::f64::consts::PI)); vassume(h > R(0.0));
+    let tp = Angle::tan(Rad(-fovy / R(2.0)));
+    vlemma("tan(-fovy/2) > 0", tp > R(0.0));
+    let tn = Angle::tan(Rad(fovy / R(2.0)));
+    vlemma_eq("tan is odd", tn, -tp);
+    let focal = -(h / (R(2.0) * tn));
+    vassume((focal >= Float::min(f, n)) & (focal <= Float::max(f, n)));
+    let _m = planar(Rad(fovy), aspect, h, n, f);
+    vmust_not_reach("focal point between the planes accepted (negative fovy)");
+}
 // ---- and valid parameters are accepted (the returning path exists and no panic path is feasible)
 fn c10_accept_perspective(fovy: R, aspect: R, n: R, f: R) {
     vassume(fovy > R(0.0)); vassume(fovy < R(std::f64::consts::PI));
